@@ -289,8 +289,8 @@ class DBStorage(BaseStorage):
                 if tag[0] in ("delegation", "expiration"):
                     if len(tag) > 1:
                         tags.add((tag[0], tag[1]))
-                elif len(tag[0]) == 1:
-                    tags.add((tag[0], tag[1] if len(tag) > 1 else ""))
+                elif len(tag[0]) == 1 and len(tag) > 1:
+                    tags.add((tag[0], tag[1]))
             if tags:
                 await conn.execute(
                     self.tag_insert_query,
